@@ -480,9 +480,10 @@ def alphabet(pool, profile):
       "full"  every statement kind and variant of the mini-language
       "mid"   every statement kind, one or two variants each
       "core"  set / out / if / for / with / macro+call on two variables
-      "tiny"  ten labels: the scoping skeleton (out, set, if, for, with, macro, call)
-      "tiny2" ten labels: block set, filter block, recursive loop, namespace store
+      "tiny"  nine labels: the scoping skeleton (out, set, if, for, with, macro, call)
+      "tiny2" nine labels: block set, filter block, recursive loop, namespace store
       "tiny3" twelve labels: macro parameters/defaults, call block, caller, break
+      "alias5" eight labels on three variables (out, set, copies, if, for)
       "alias" set / out / if / for / with on the whole pool (can-alias subset)
     """
     P = list(pool)
@@ -550,7 +551,7 @@ def alphabet(pool, profile):
         # scoping skeleton: two variables, one variant of each basic scope kind
         x, y = P[0], P[1]
         a["out"] = [V(x), V(y)]
-        a["set"] = [(x, C(1)), (y, V(x)), (x, V(y))]
+        a["set"] = [(x, C(1)), (y, V(x))]
         a["if"] = [(("flag", "f"),)]
         a["for"] = [(y, "l12", None)]
         a["with"] = [()]
@@ -563,7 +564,6 @@ def alphabet(pool, profile):
         a["set"] = [(x, C(1))]
         a["nsnew"] = [V(x)]
         a["nsset"] = [("add1", ("nsget", NS, "x"))]
-        a["if"] = [(("flag", "f"),)]
         a["for"] = [(x, "l12", None)]
         a["bset"] = [x]
         a["filter"] = [True]
@@ -581,6 +581,13 @@ def alphabet(pool, profile):
         a["for"] = [(x, "l12", None)]
         a["loopctl"] = [("break",)]
         a["if"] = [(("flag", "f"),)]
+    elif profile == "alias5":
+        # three variables chained by copies, for the deepest bound
+        x, y, z = P[0], P[1], P[2]
+        a["out"] = [V(x), V(y), V(z)]
+        a["set"] = [(x, C(1)), (y, V(x)), (z, V(y))]
+        a["if"] = [(("flag", "f"),)]
+        a["for"] = [(z, "l12", None)]
     elif profile == "alias":
         a["out"] = [V(v) for v in P]
         a["set"] = [(v, C(1)) for v in P] + [(v, V(w)) for v, w in pairs]
